@@ -900,6 +900,11 @@ class _Expr(SymEval):
                         return self.eval(n.args[1])  # next(it, default)
                     raise
                 raise NotSymbolic("next() of a non-iterator")
+            if f.id == "slice" and "slice" not in self.env and 1 <= len(n.args) <= 3 and not n.keywords:
+                sargs = self._args(n)
+                if any(isinstance(a, (Sym, Rec)) for a in sargs):
+                    raise NotSymbolic("slice with symbolic bounds")
+                return slice(*[None if a is None else int(a) for a in sargs])
             if f.id == "bool" and len(n.args) == 1:
                 return self._truth(self.eval(n.args[0]))
             if f.id in ("int", "float") and n.args:
